@@ -830,7 +830,7 @@ class Srfi113(Lib):
                 a = sbag(rng)
                 d = a if inplace else sbag(rng)
                 x, y = elem(rng), elem(rng)
-                k = rng.randrange(0, 4)
+                k = rng.randrange(1, 4)
                 return bstore(h, d, fmodel(C(h.m[a]), x, y, k), fexpr % {"a": "o%d" % a, "x": x, "y": y, "k": k}, name)
             o.append(op)
 
@@ -867,6 +867,8 @@ class Srfi113(Lib):
         b_obs("bag-fold", "(bag-fold (lambda (x acc) (+ acc x 1)) 0 %(a)s)", lambda a, b, x, p: sum((e + 1) * n for e, n in a.items()))
         b_obs("bag=?", "(list (bag=? %(a)s %(b)s) (bag<=? %(a)s %(b)s) (bag>=? %(a)s %(b)s) (bag<? %(a)s %(b)s) (bag=? %(a)s (bag-copy %(a)s)))",
               lambda a, b, x, p: [a == b, sub(a, b), sub(b, a), sub(a, b) and a != b, True])
+        b_obs("bag-product-0", "(let ((z (bag-product 0 (bag cmp 1 1 2)))) (list (bag-size z) (bag-unique-size z) (bag-empty? z) (bag-contains? z 1)))",
+              lambda a, b, x, p: [0, 0, True, False])
         b_obs("bag-disjoint?", "(list (bag-disjoint? %(a)s %(b)s))", lambda a, b, x, p: [not (set(a) & set(b))])
 
         def b_bin(name, fexpr, fmodel, inplace=False):
